@@ -824,12 +824,9 @@ func solveOne(w *World, o *Obligation, dir string, timeoutMs int) *OblResult {
 			firsts = append(firsts, variant{file, z3ematch, "z3-new(ematch)", false})
 		}
 	}
-	for i, first := range firsts {
-		budget := 1500
-		if i > 0 {
-			budget = 4000
-		}
-		r := runSolver(context.Background(), first.sp, first.file, min(timeoutMs, budget))
+	{
+		first := firsts[0]
+		r := runSolver(context.Background(), first.sp, first.file, min(timeoutMs, 1500))
 		if r.Status == "unsat" || (r.Status == "sat" && first.full) {
 			r.Solver = first.label
 			r.Time = time.Since(t0).Seconds()
@@ -837,6 +834,36 @@ func solveOne(w *World, o *Obligation, dir string, timeoutMs int) *OblResult {
 			res.OK = r.Status == "unsat"
 			return res
 		}
+	}
+	if len(firsts) > 1 {
+		// stage 1b (quantified goals): E-matching-only z3 and cvc5 side by side; many goals that z3's MBQI loses are
+		// decided by one of them within a fraction of a second
+		seconds := []variant{firsts[1]}
+		if ufile != "" {
+			seconds = append(seconds, variant{ufile, solvers[2], "cvc5(uf-products)", false})
+		} else {
+			seconds = append(seconds, variant{file, solvers[2], "cvc5", false})
+		}
+		ctx1, cancel1 := context.WithCancel(context.Background())
+		ch1 := make(chan SolveResult, len(seconds))
+		for _, v := range seconds {
+			go func(v variant) {
+				r := runSolver(ctx1, v.sp, v.file, min(timeoutMs, 4000))
+				r.Solver = v.label
+				ch1 <- r
+			}(v)
+		}
+		for range seconds {
+			r := <-ch1
+			if r.Status == "unsat" {
+				cancel1()
+				r.Time = time.Since(t0).Seconds()
+				res.R = r
+				res.OK = true
+				return res
+			}
+		}
+		cancel1()
 	}
 	// stage 2: everything else in parallel; first definite answer wins
 	vs := []variant{{file, solvers[0], "z3-new", true}, {file, solvers[2], "cvc5", true}, {file, solvers[1], "z3", true}}
